@@ -39,7 +39,7 @@ let dump_outbox (s : srv) eui =
 let dump_inbox (s : srv) eui =
   let l = (dt_get s.s_tab eui).ds_inbox in
   let l = List.stable_sort (fun a b -> cmp_n a.u_ts b.u_ts) l in
-  "inbox " ^ hx eui ^ " [" ^ String.concat "," (List.map (fun m -> hex_of_bytes m.u_data) l) ^ "]"
+  "inbox " ^ hx eui ^ " [" ^ String.concat "," (List.map (fun m -> "#" ^ hex_of_bytes m.u_data) l) ^ "]"
 let dump_fb (s : srv) =
   let items = List.filter_map (fun (eui, st) ->
     match st.ds_fb with
